@@ -1,7 +1,7 @@
-(* Stages B and C assembled: for programs over top-level variables - declarations, assignments, expression statements
-   and conditionals with assignment / expression branches, any number, any scalar expressions over the variables
-   declared so far - compiling with the compiler model and running the result on the VM model gives what the
-   reference semantics gives. *)
+(* Stages B-D assembled: for programs over top-level variables - declarations, assignments, expression statements,
+   conditionals and condition loops nested to any depth, any scalar expressions over the variables declared so far -
+   compiling with the compiler model and running the result on the VM model gives what the reference semantics
+   gives, whenever the program ends (its source-level run [run_stmts] returns with some fuel). *)
 From Coq Require Import List ZArith NArith Bool Arith Lia.
 Require Import RV.model.Syntax RV.model.Compiler RV.model.VM RV.model.ScalarFrag RV.model.VarProg.
 Require Import RV.proofs.VMScalarProofs RV.proofs.VarProgFacts RV.proofs.VarCompileProofs RV.proofs.VarVMProofs.
@@ -9,67 +9,70 @@ Require RV.model.Sem RV.proofs.SemScalarProofs RV.proofs.VarSemProofs.
 Import ListNotations.
 Local Open Scope nat_scope.
 
-Definition agree (o : Sem.outcome) (r : res) : Prop :=
-  exists x : sval + serr,
-    o = SemScalarProofs.lift x /\
-    match x with
-    | inl v => exists s, r = RVal (VMScalarProofs.inj v) s
-    | inr er => exists s, r = RErr (cls er) s
-    end.
+(* the outcome x of the source-level run is what both sides report *)
+Definition agree_on (x : sval + serr) (o : Sem.outcome) (r : res) : Prop :=
+  o = SemScalarProofs.lift x /\
+  match x with
+  | inl v => exists s, r = RVal (VMScalarProofs.inj v) s
+  | inr er => exists s, r = RErr (cls er) s
+  end.
+Definition agree (o : Sem.outcome) (r : res) : Prop := exists x, agree_on x o r.
+
+Definition top_result (r : (list sval * sval) + serr) : sval + serr :=
+  match r with inl (_, v) => inl v | inr x => inr x end.
 
 Lemma nth_of_nth_error (A : Type) (l : list A) i k d : nth_error l i = Some k -> nth i l d = k.
 Proof. revert i; induction l as [|x l IH]; intros [|i] H; cbn in *; try discriminate; [congruence|auto]. Qed.
-
-Lemma max_need_pos l : l <> [] -> 1 <= max_need l.
-Proof.
-  destruct l as [|s r]; [contradiction|]. intros _. rewrite max_need_cons.
-  pose proof (VarVMProofs.stmt_need_pos s). lia.
-Qed.
 
 Section Names.
   Variable names : list (list N).
   Hypothesis names_nodup : NoDup names.
   Hypothesis names_nonempty : Forall (fun nm => nm <> []) names.
 
-  Theorem run_var_program l tabs ng :
-    l <> [] -> wf_stmts 0 l = true -> ndecls l <= ng -> max_need l <= MAXSTACK ->
-    exists n s', forall f,
-      VM.run (n + S f) (Code main_id main_id false 0 (fst (pcode 0 0 l)) (snd (pcode 0 0 l)) [] [] []) tabs ng [] =
-      match run_stmts [] l VNil with
+  Theorem run_var_program l tabs ng n r :
+    l <> [] -> wf_stmts true 0 l = true -> ndecls l <= ng -> max_need l <= MAXSTACK ->
+    run_stmts n [] l VNil = Some r ->
+    exists k s', forall f,
+      VM.run (k + S f) (Code main_id main_id false 0 (fst (pcode 0 0 l)) (snd (pcode 0 0 l)) [] [] []) tabs ng [] =
+      match top_result r with
       | inl v => RVal (VMScalarProofs.inj v) s'
       | inr x => RErr (cls x) s'
       end.
   Proof.
-    intros Hne Hwf Hng Hn.
+    intros Hne Hwf Hng Hn Hr.
     set (c := Code main_id main_id false 0 (fst (pcode 0 0 l)) (snd (pcode 0 0 l)) [] [] []).
     set (s0 := {| lists := []; maps := []; arrays := [repeat VGoNil ng]; iters := [];
                   globals := [] ++ repeat VGoNil (ng - length (@nil value)); trace := [] |}).
-    assert (Hinv : vm_inv [] (ndecls l) s0).
+    assert (Hinv : vm_inv [] (ndecls l + 0) s0).
     { split; [cbn [length Nat.add globals s0 app]; rewrite repeat_length; cbn; lia|]. intros i Hi. cbn in Hi. lia. }
-    destruct (vm_prog tabs c 0 [0] [] [] true l [] s0 0 [] [] VNil Hne Hinv Hwf) as [n [s' Hr]].
+    destruct (vm_prog tabs c 0 [0] [] [] true n l [] 0 s0 0 [] [] VNil r Hne Hinv Hwf) as [k [s' Hrun]]; try exact Hr.
     - cbn [code_instr c app]. rewrite app_nil_r. reflexivity.
     - intros i kk Hi. cbn [code_consts c Nat.add]. apply nth_of_nth_error. exact Hi.
     - cbn [Nat.add]. exact Hn.
-    - exists n, s'. intros f. unfold VM.run. fold s0. fold c. specialize (Hr (S f)). cbn [length] in Hr.
-      destruct (run_stmts [] l VNil) as [v|x].
-      + rewrite Hr. cbn [length Nat.add]. cbn [exec].
+    - exists k, s'. intros f. unfold VM.run. fold s0. fold c.
+      destruct r as [[rho v]|x]; cbn [top_result].
+      + destruct Hrun as [_ Hrun]. specialize (Hrun (S f)). cbn [length] in Hrun.
+        rewrite Hrun. cbn [length Nat.add]. cbn [exec].
         replace (nth_error (code_instr c) (length (fst (pcode 0 0 l)))) with (@None N);
           [reflexivity|symmetry; apply nth_error_None; cbn [code_instr c]; lia].
-      + rewrite Hr. reflexivity.
+      + pose proof (Hrun (S f)) as H. cbn [length] in H. rewrite H. reflexivity.
   Qed.
 
-  Theorem var_programs_end_to_end : forall l,
-    l <> [] -> wf_stmts 0 l = true -> ndecls l <= length names -> max_need l <= MAXSTACK ->
+  Theorem var_programs_end_to_end : forall l n r,
+    l <> [] -> wf_stmts true 0 l = true -> ndecls l <= length names -> max_need l <= MAXSTACK ->
+    run_stmts n [] l VNil = Some r ->
     exists c tabs, compile_program (S (max_height l)) [] (embed_stmts names 0 l) = inr (c, tabs) /\
-    forall ng, ndecls l <= ng -> exists n, forall f fs, max_height l < fs ->
-      agree (fst (Sem.run fs (embed_stmts names 0 l))) (VM.run (n + S f) c tabs ng []).
+    forall ng, ndecls l <= ng -> exists k, forall f fs, max_height l < fs -> n < fs ->
+      agree_on (top_result r) (fst (Sem.run fs (embed_stmts names 0 l))) (VM.run (k + S f) c tabs ng []).
   Proof.
-    intros l Hne Hwf Hd Hn. eexists. eexists.
-    split; [exact (compile_var_program names names_nodup l (max_height l) Hne Hd Hwf (le_n _))|].
-    intros ng Hng. destruct (run_var_program l (root_tb names (ndecls l) (nblocks l) :: blocks (nblocks l)) ng Hne Hwf Hng Hn) as [n [s' Hr]].
-    exists n. intros f fs Hfs. exists (run_stmts [] l VNil). split.
+    intros l n r Hne Hwf Hd Hn Hr.
+    destruct (compile_var_program names names_nodup l (max_height l) Hne Hd Hwf (le_n _)) as [tabs Hc].
+    eexists. exists tabs. split; [exact Hc|].
+    intros ng Hng. destruct (run_var_program l tabs ng n r Hne Hwf Hng Hn Hr) as [k [s' Hrun]].
+    exists k. intros f fs Hfs Hnfs. split.
     - destruct fs as [|fs]; [lia|].
-      exact (VarSemProofs.sem_var_program names names_nodup names_nonempty l fs Hwf Hd ltac:(lia)).
-    - rewrite Hr. destruct (run_stmts [] l VNil); eexists; reflexivity.
+      rewrite (VarSemProofs.sem_var_program names names_nodup names_nonempty l n fs r Hwf Hd ltac:(lia) ltac:(lia) Hr).
+      destruct r as [[rho v]|x]; reflexivity.
+    - rewrite Hrun. destruct (top_result r); eexists; reflexivity.
   Qed.
 End Names.
